@@ -21,6 +21,9 @@ void harness (void)
 {
     int32_t W, width, width0, left_pad, right_pad, i;
     pixman_fixed_t vx, unit_x = UNITX;
+#ifdef UNITX_SYM
+    VP_SYM (unit_x); VP_ASSUME (unit_x >= 1 && unit_x <= UNITX);	/* symbolic step up to the bound */
+#endif
     VP_SYM (W); VP_SYM (vx); VP_SYM (width); VP_SYM (i);
     VP_ASSUME (W >= 1 && W <= 32767);
     VP_ASSUME (width >= 0 && width <= 32767);
